@@ -149,6 +149,43 @@ fn literals_instance(n: usize) -> Instance {
     Instance { name: format!("{n} distinct one-character patterns"), cfg: Cfg::single(chars.iter().enumerate().map(|(i, c)| CPat::new(&c.to_string(), i)).collect()), probes, states: n + 1 }
 }
 
+/// `n` irregular keywords (23 first letters, 2..4 characters, prefixes of each other allowed), each
+/// padded with an irregular number of empty groups `()` in front of and behind the word: an empty
+/// group costs a state of the unminimized (NFA-level) automaton and nothing afterwards, so the
+/// construction crosses 2^16 NFA states while the deterministic automaton stays small.
+fn padded_keywords_instance(n: usize, pad: usize) -> Instance {
+    let first: Vec<char> = "abcdefghijklmnopqrstuvw".chars().collect();
+    let word = |i: usize| {
+        let mut w = String::new();
+        w.push(first[i % 23]);
+        let mut k = i / 23;
+        loop {
+            w.push((b'0' + (k % 6) as u8) as char);
+            k /= 6;
+            if k == 0 {
+                break;
+            }
+        }
+        w
+    };
+    let mut pats = vec![];
+    let mut probes = vec![];
+    let mut states = 1;
+    for i in 0..n {
+        let w = word(i);
+        let front = (i * 7) % 5;
+        let back = pad + (i * 37) % 17;
+        pats.push(CPat::new(&format!("{}{}{}", "()".repeat(front), w, "()".repeat(back)), i));
+        states += front + back + w.len() + 1;
+        if i < 30 || i % 41 == 0 || i + 30 > n {
+            // the word alone is its own keyword (a longer keyword needs more input)
+            probes.push((w.clone(), vec![(i, 0, w.len())]));
+        }
+    }
+    probes.push(("z0".into(), vec![]));
+    Instance { name: format!("{n} irregular keywords padded with {pad}..{} empty groups each", pad + 16), cfg: Cfg::single(pats), probes, states }
+}
+
 pub fn run(tier: Tier) -> ! {
     let mut run = Run::new("C17", tier);
     let mut inst: Vec<Instance> = vec![
@@ -166,6 +203,9 @@ pub fn run(tier: Tier) -> ! {
         copies_instance(5000, "a", "a"),
         copies_instance(1300, "ab", "ab"),
         literals_instance(1100),
+        padded_keywords_instance(300, 12),   // ~  7 000 NFA-level states
+        padded_keywords_instance(620, 100),  // ~ 69 000 NFA-level states: beyond 2^16 without a large DFA
+        padded_keywords_instance(1400, 40),  // ~ 72 000
     ];
     // beyond 2^16 states (minutes per instance)
     let big_quick = std::env::var("VERIF_C17_BIG").map(|v| v != "0").unwrap_or(true);
@@ -239,6 +279,53 @@ pub fn run(tier: Tier) -> ! {
             }
         }
     });
+    // large near-identical pattern lists through the process-wide cache: list A, then A with ONE
+    // keyword renamed (for several positions), then A again; every scanner must know exactly its
+    // own keywords. Anything that identifies a large list by less than all of it shows here.
+    let mut twin_builds = 0usize;
+    let twin_sizes: &[usize] = if tier == Tier::Quick { &[520, 1300] } else { &[520, 1300, 4200] };
+    for &n in twin_sizes {
+        let base: Vec<String> = (0..n).map(|i| format!("k{:04}", i)).collect();
+        let cfg_of = |kws: &[String]| Cfg::single(kws.iter().enumerate().map(|(i, k)| CPat::new(k, i)).collect());
+        let mut check = |label: String, kws: &[String], changed: Option<usize>| {
+            twin_builds += 1;
+            let r = catch(|| {
+                let sc = cfg_of(kws).build_cached().map_err(|e| e.to_string())?;
+                let mut bad = vec![];
+                let idx: Vec<usize> = [0usize, 1, n / 2, n - 1].into_iter().chain(changed).collect();
+                for i in idx {
+                    let got = bridge::scan_all(&sc, &kws[i]).map_err(|e| e.to_string())?;
+                    if got != vec![(i, 0, kws[i].len())] {
+                        bad.push(format!("{:?} is tokenized as {:?}, expected type {i}", kws[i], got));
+                    }
+                }
+                if let Some(k) = changed {
+                    // the name the keyword has in the other list is not a keyword here
+                    let got = bridge::scan_all(&sc, &base[k]).map_err(|e| e.to_string())?;
+                    if !got.is_empty() {
+                        bad.push(format!("{:?} (a keyword of the list built before, not of this one) is tokenized as {:?}", base[k], got));
+                    }
+                }
+                Ok::<Vec<String>, String>(bad)
+            });
+            match r {
+                Ok(Ok(bad)) if bad.is_empty() => {}
+                Ok(Err(_)) => {} // rejected with an error: acceptable
+                other => {
+                    let what = format!("{other:?}").chars().take(400).collect::<String>();
+                    viol.lock().unwrap().add("", || Violation { key: String::new(), summary: format!("{n} keywords through build(), {label}: {what}"), replay: json!({"calls": [format!("build() of k0000..k{:04} (token type = index)", n - 1), "build() of the same list with one keyword renamed to q<index> (for each of the positions 1,2,3,5,7,50,52,53,101,255,256,257,n-2)", "build() of the first list again"], "step": label, "problem": what}) });
+                }
+            }
+        };
+        check("the list itself".into(), &base, None);
+        let positions: Vec<usize> = if n > 2000 { vec![1, 50, 257, n - 2] } else { vec![1, 2, 3, 5, 7, 50, 52, 53, 101, 255, 256, 257, n - 2] };
+        for k in positions {
+            let mut kws = base.clone();
+            kws[k] = format!("q{:04}", k);
+            check(format!("keyword #{k} renamed"), &kws, Some(k));
+            check(format!("the original list again after the variant #{k}"), &base, None);
+        }
+    }
     let n_dis = viol.lock().unwrap().total();
     std::mem::take(&mut *viol.lock().unwrap()).flush(&mut run);
     let t = *totals.lock().unwrap();
@@ -255,6 +342,7 @@ pub fn run(tier: Tier) -> ! {
     cov.insert("exhaustive".into(), json!(rep.iter().all(|r| r["capped"] != json!(true))));
     cov.insert("instances".into(), json!(rep));
     cov.insert("instances_beyond_65535_states".into(), json!(beyond));
+    cov.insert("near_identical_large_lists_through_the_cache".into(), json!({"list_sizes": twin_sizes, "build_calls": twin_builds, "shape": "list, then for 13 positions (4 for the 4200 list): list with that keyword renamed, list again; probes: first, second, middle, last and the renamed keyword, and the old name of the renamed one"}));
     cov.insert("disagreeing_instances".into(), json!(n_dis));
     run.finish(
         "model_checking",
